@@ -46,7 +46,7 @@ func addProp(d *propDef) {
 func init() {
 	addProp(&propDef{
 		ID: "C05", Check: "flow", Level: "fault_enumeration",
-		Rule: "every vector in {absent, returns, panics with a distinct error value, calls Exit(10+i), dies of a genuine runtime error (shallow depths)}^(2d+3) over the d+1 Befores, the Action (never absent) and the d+1 Afters of the chain app->c1->..->cd, for every depth d in the bound, crossed with the three error policies at d<=2; all vectors are distinct by construction (mixed-radix counter); non-trivial = at least one hook panics or exits; at depth <= 2 every vector with a panicking hook is also run with four more kinds of panic value (user error type exposing ExitCode()/ExitStatus()/Code(), int, string, typed nil pointer): any value that is not a cli.Exit is re-raised unchanged; second runs: the hooks are re-assigned before the second Run and must be the ones called",
+		Rule: "every vector in {absent, returns, panics with a distinct error value, calls Exit(10+i), dies of a genuine runtime error (shallow depths)}^(2d+3) over the d+1 Befores, the Action (never absent) and the d+1 Afters of the chain app->c1->..->cd, for every depth d in the bound, crossed with the three error policies at d<=2; all vectors are distinct by construction (mixed-radix counter); non-trivial = at least one hook panics or exits; at depth <= 2 every vector with a panicking hook is also run with four more kinds of panic value (user error type exposing ExitCode()/ExitStatus()/Code(), int, string, typed nil pointer): any value that is not a cli.Exit is re-raised unchanged; at depth <= 2 every vector with an exiting hook is also run with all hooks exiting with status 0, -1 and 256 (the status does not change the flow: the Afters run once, the process-exit function is called once with that status); second runs: the hooks are re-assigned before the second Run and must be the ones called",
 		Assumptions: []string{"reference = 30-line model of the documented interceptor diagram (harness/ref/flow.go)"},
 	})
 }
@@ -58,13 +58,13 @@ func init() {
 	}
 	addProp(&propDef{
 		ID: "C01", Check: "lang", Level: "model_checking",
-		Rule:        "structural layer: for every grammar-derived spec up to the structural size bound, the automaton compiled by the library (read back state by state) is compared with the partial-derivative automaton of the spec's AST by BFS over the product of the two subset automata (states/transitions = product states/edges; decides language equality over abstract letters for words of unbounded length; a distinguishing word is concretised and must be reproduced on Cli.Run before it is reported); concrete layer (= traces validated against the implementation): all grammar-derived spec strings up to the size bound (size = leaves + `...` + bracket pairs; deduplicated through a set) x all argument vectors up to the length bound over the token alphabet (every documented spelling, positionals, '-', '--', undeclared and malformed tokens), plus per spec all words over the spec's own letters up to length 5/6 (8/9 when the spec has at most two letters) (model traces); each pair is run on a freshly built application through Cli.Run and judged by the reference; pairs are distinct by construction; non-trivial = the reference accepts, or some atom consumed a token before rejecting; built-in tier: every case a second time with one caller-owned default slice behind every multi-valued declaration (acceptance unchanged); third declaration set `num` (flags -4/--ipv4 and -6, flags -i -n/--nan -f/--nan-ok, valued -p/--port); structural layer also over the operator towers W3(W1(a) op W2(b)), W any stack of <= 2 (thorough 3) of [s], (s)..., [s]...; one tier with the standard program declared on a sub-command `sub` (lazy initialisation, command line prefixed with `sub`)",
+		Rule:        "structural layer: for every grammar-derived spec up to the structural size bound, the automaton compiled by the library (read back state by state) is compared with the partial-derivative automaton of the spec's AST by BFS over the product of the two subset automata (states/transitions = product states/edges; decides language equality over abstract letters for words of unbounded length; a distinguishing word is concretised and must be reproduced on Cli.Run before it is reported); concrete layer (= traces validated against the implementation): all grammar-derived spec strings up to the size bound (size = leaves + `...` + bracket pairs; deduplicated through a set) x all argument vectors up to the length bound over the token alphabet (every documented spelling, positionals, '-', '--', undeclared and malformed tokens), plus per spec all words over the spec's own letters up to length 5/6 (8/9 when the spec has at most two letters) (model traces); each pair is run on a freshly built application through Cli.Run and judged by the reference; pairs are distinct by construction; non-trivial = the reference accepts, or some atom consumed a token before rejecting; built-in tier: every case a second time with one caller-owned default slice behind every multi-valued declaration (acceptance unchanged); third declaration sets `num` and `val2` (two valued options, command lines of up to 5 tokens) (flags -4/--ipv4 and -6, flags -i -n/--nan -f/--nan-ok, valued -p/--port); structural layer also over the operator towers W3(W1(a) op W2(b)), W any stack of <= 2 (thorough 3) of [s], (s)..., [s]...; one tier with the standard program declared on a sub-command `sub` (lazy initialisation, command line prefixed with `sub`)",
 		Assumptions: langAssume,
 		Budget:      [2]int{1200, 7200},
 	})
 	addProp(&propDef{
 		ID: "C02", Check: "lang", Level: "exploration",
-		Rule:        "same (spec, argv) space as C01; judged on every accepted pair: the per-container value lists observed inside the Action must equal the bindings of one accepting derivation of the reference (all derivations are computed, ambiguous specs included), and independently of the reference matcher every option holds exactly its occurrences' values in command-line order and the positional tokens are partitioned in order over the arguments; non-trivial = accepted pairs with a claimed verdict; built-in tier: the same case with one caller-owned default slice behind every multi-valued declaration binds the same values; declaration set `num`; inline value `w_-=z`; one tier with the standard program declared on a sub-command `sub` (lazy initialisation, command line prefixed with `sub`)",
+		Rule:        "same (spec, argv) space as C01; judged on every accepted pair: the per-container value lists observed inside the Action must equal the bindings of one accepting derivation of the reference (all derivations are computed, ambiguous specs included), and independently of the reference matcher every option holds exactly its occurrences' values in command-line order and the positional tokens are partitioned in order over the arguments; non-trivial = accepted pairs with a claimed verdict; built-in tier: the same case with one caller-owned default slice behind every multi-valued declaration binds the same values; declaration sets `num` and `val2` (two valued options, command lines of up to 5 tokens); inline value `w_-=z`; one tier with the standard program declared on a sub-command `sub` (lazy initialisation, command line prefixed with `sub`)",
 		Assumptions: langAssume,
 		Budget:      [2]int{1200, 7200},
 	})
@@ -176,7 +176,7 @@ func init() {
 func init() {
 	addProp(&propDef{
 		ID: "C18", Check: "decl", Level: "exploration",
-		Rule: "all sequences of <= 3 option declarations over the 16 name lists built from {a, b, aa, bb} (collisions between any two names of any two options, either order, short and long) and all sequences of <= 3 argument declarations over 16 candidate names (valid identifiers, lower case, leading digit / underscore, dash, dot, brackets, OPTIONS, non-ASCII, empty); judged: the declaration panics iff a name is already taken / the name is not [A-Z][A-Z0-9_]* or is OPTIONS; after a clean sequence every listed name, typed on the command line, sets exactly the variable it was listed for (one fresh application and one run per name), and every argument receives its own token; non-trivial = sequences with a collision or an invalid name",
+		Rule: "all sequences of <= 3 option declarations over the 16 name lists built from {a, b, aa, bb} (collisions between any two names of any two options, either order, short and long) and all sequences of <= 3 argument declarations over 16 candidate names (valid identifiers, lower case, leading digit / underscore, dash, dot, brackets, OPTIONS, non-ASCII, empty); judged: the declaration panics iff a name is already taken / the name is not [A-Z][A-Z0-9_]* or is OPTIONS; after a clean sequence every listed name, typed on the command line, sets exactly the variable it was listed for (one fresh application and one run per name), and every argument receives its own token; the declarations of a sequence rotate through eight option kinds (Bool, String, Int, Strings, Ints, Float64, Floats64, Var) / eight argument kinds, every sequence once per rotation offset, on the root command and inside the initialiser of a sub-command; plus the *Ptr forms into one shared variable, Version() against the option table and re-declaration after a Run; non-trivial = sequences with a collision or an invalid name",
 		Assumptions: []string{"expected panics computed by a 10-line name table / one regular expression"},
 	})
 }
@@ -213,7 +213,7 @@ func init() {
 			{Name: "probe-conv", Build: "plain", Check: "conv", Props: "C13", OrderProbe: true},
 			{Name: "probe-decl", Build: "plain", Check: "decl", Props: "C18", OrderProbe: true},
 		},
-		Rule: "(a) histories: every template rebuilt and rerun 120 times (identical outcomes), and every ordered sequence of <= 3 of 21 application templates (chosen to collide: same spec text with different declarations, same option names, the same environment variable read with different values, a rejection, a help request under ExitOnError, hooks with Exit, nested repetitions, implicit spec, two rejections caused by unconvertible values with other containers already collected, a rejection by the spec of a sub-command, two custom values of one Go type answering IsBoolFlag() differently, an accepted run under PanicOnError; error values returned by earlier runs of a history must keep reading the same) is built-and-run in one fresh process and every outcome compared with the template's outcome alone in a fresh process; (b) interleavings: the library sources are instrumented (overlay) with a scheduling point at every function entry, every loop head and before/after every statement mentioning a package-level variable; 2 (thorough: 3) templates run as cooperative threads; all schedules up to the preemption bound are enumerated depth-first (dense pass: every point; focused pass: tagged points only, higher bound), every execution on fresh objects; oracle per execution: each thread ends exactly as it does alone under the same instrumentation (result, bound values, exit codes and the text that thread itself wrote to the output stream), and no package-level variable is written by one thread and touched by another (conflict monitor); states = scheduling points visited, transitions = executions (schedules) run; traces validated = schedules executed on the real code (all of them); (c) the same bodies free-running in 16 goroutines under -race; (d) order probes: the enumerations of C06/C15, C19, C17, C13 and C18 (thorough: also C14) (millions of different applications built and run one after another in 16 long-lived processes) are run once more, and a case that fails there but passes alone in a fresh process is reported as an order dependence; non-trivial = executions with at least one preemption, histories of length >= 2",
+		Rule: "(a0) argv reuse: 185 specs of size <= 2 x two declaration orders of the options x every command line of <= 3 tokens over 10 tokens: a fresh application is run with a caller-owned slice, the slice must read the same afterwards, and the application rebuilt and run with the very same slice must end the same (acceptance, bound values, SetByUser); (a) histories: every template rebuilt and rerun 120 times (identical outcomes), and every ordered sequence of <= 3 of 21 application templates (chosen to collide: same spec text with different declarations, same option names, the same environment variable read with different values, a rejection, a help request under ExitOnError, hooks with Exit, nested repetitions, implicit spec, two rejections caused by unconvertible values with other containers already collected, a rejection by the spec of a sub-command, two custom values of one Go type answering IsBoolFlag() differently, an accepted run under PanicOnError; error values returned by earlier runs of a history must keep reading the same) is built-and-run in one fresh process and every outcome compared with the template's outcome alone in a fresh process; (b) interleavings: the library sources are instrumented (overlay) with a scheduling point at every function entry, every loop head and before/after every statement mentioning a package-level variable; 2 (thorough: 3) templates run as cooperative threads; all schedules up to the preemption bound are enumerated depth-first (dense pass: every point; focused pass: tagged points only, higher bound), every execution on fresh objects; oracle per execution: each thread ends exactly as it does alone under the same instrumentation (result, bound values, exit codes and the text that thread itself wrote to the output stream), and no package-level variable is written by one thread and touched by another (conflict monitor); states = scheduling points visited, transitions = executions (schedules) run; traces validated = schedules executed on the real code (all of them); (c) the same bodies free-running in 16 goroutines under -race; (d) order probes: the enumerations of C06/C15, C19, C17, C13 and C18 (thorough: also C14) (millions of different applications built and run one after another in 16 long-lived processes) are run once more, and a case that fails there but passes alone in a fresh process is reported as an order dependence; non-trivial = executions with at least one preemption, histories of length >= 2",
 		Assumptions: []string{"interleavings are explored at the granularity of the inserted scheduling points; Go memory-model effects below that granularity are left to the free-running -race pass, which is not exhaustive", "a report of the race detector is taken as proof (no confirmation replay)", "concurrent applications share the package-level output stream by design: outputs are compared in histories only"},
 	})
 }
